@@ -294,6 +294,8 @@ class Verifier:
             try:
                 return self.run_contract_path(C, ctx)
             except Unsupported as e:
+                if os.environ.get("VERIF_TRACE"):
+                    traceback.print_exc()
                 return dict(kind="unsupported", goal=None, detail=str(e), inlined=None)
         try:
             self.prog.func(C.fn)
